@@ -489,6 +489,9 @@ func (m *Machine) callSSA(caller *frame, fn *ssa.Function, args []Value, env []V
 		if o := fn.Origin(); o != nil {
 			name = o.String()
 		}
+		if strings.HasPrefix(name, ZZScratch) {
+			name = ZZ + strings.TrimPrefix(name, ZZScratch)
+		}
 		if ext, ok := externals[name]; ok {
 			m.StubsHit[name] = true
 			return ext(m, caller, fn, args)
